@@ -1,4 +1,4 @@
-"""Lcdp (CiscoDiscovery header + raw TLV list decoder sub-check: C19, C01; C05/C06/C07 n/a; CiscoDiscoveryInfo not modelled) configuration for ./check"""
+"""Lcdp (CiscoDiscovery header + raw TLV list decoder sub-check: C19, C01; C05/C06/C07 n/a; CiscoDiscoveryInfo: sub-check Lcdpinfo) configuration for ./check"""
 CONF = {
     'interesting': ['truncated-prefix-of-valid', 'octet-every-value', 'value-length-extreme', 'value-header-cut', 'several-values', 'decode-error', 'malformed'],
     'rule': 'CDP messages with 0..8 TLVs of 0..40 value octets; every version octet; the last TLV\'s length 0,1,3,4,5, one less/equal/one more than what is left, 255,256,65535 (also exactly fitting 65535); a TLV header cut after 0..4 octets; every truncation up to 40 and a sparse set beyond; a malformed stream.',
@@ -6,7 +6,7 @@ CONF = {
     'assumptions': ['Go slice semantics as modelled (slices checked against len, stricter than cap)',
                     'gopacket.LayerString/LayerDump/LayerGoString total on non-nil layers (reflective); CDPTLVType.String exercised on every decoded value',
                     'CiscoDiscovery has only a decoder function (a new layer per call: C05 n/a) and no SerializeTo (C06/C07 n/a)',
-                    'NOT modelled: the CiscoDiscoveryInfo layer (decodeCiscoDiscoveryInfo, the typed interpretation of the TLVs) that is decoded next; the harness stops after the CiscoDiscovery layer'],
+                    'the CiscoDiscoveryInfo layer (decodeCiscoDiscoveryInfo, the typed interpretation of the TLVs) that is decoded next is the sub-check Lcdpinfo; the harness of this one stops after the CiscoDiscovery layer'],
     'trusted_base': ['model: coq/Model/LcdpModel.v is a hand transcription of layers/cdp.go:221-272'],
     'explanation': 'Theorems over all byte strings about the Gallina model of the CiscoDiscovery decoder (TLV loop by recursion on fuel len+1); correspondence ties it to layers/cdp.go.',
 }
